@@ -365,7 +365,9 @@ func (r *Reconciler) selectNodes(logger logr.Logger, daemonset *datadoghqv1alpha
 		currentNodes = canaryStatus.Nodes
 	}
 
-	nbCanaryPod, err := intstrutil.GetValueFromIntOrPercent(daemonsetSpec.Strategy.Canary.Replicas, int(replicaset.Status.Desired), true)
+	// A percentage is resolved against the number of nodes targeted by the ExtendedDaemonSet (same base as the caller),
+	// not against the canary replica set's own desired count, which is 0 until canary nodes have been selected.
+	nbCanaryPod, err := intstrutil.GetValueFromIntOrPercent(daemonsetSpec.Strategy.Canary.Replicas, int(daemonset.Status.Desired), true)
 	if err != nil {
 		return err
 	}
